@@ -341,9 +341,67 @@ def check(ctx, case, o, mab, mba):
         ctx.oracle_fail(case, {"oracle": f"testing.assert_* gave {o['assert']} but diff says {ab['diff']}"})
 
 
+def run_real(case):
+    """Objects the library itself produces (and may hold non-finite values: the NaN diagonals of the ELECTRE tables, a
+    matrix with a missing cell): an object must equal its copy, a deep copy and an identically constructed object."""
+    import copy as _c
+    from .. import methods as M
+    try:
+        def obj():
+            mtx = np.array(case["matrix"], dtype=float)
+            for (i, j) in case.get("nan", []):
+                mtx[i, j] = np.nan
+            dm = I.mkdm(mtx, list(case["objectives"]), weights=list(case["weights"]),
+                        alternatives=list(case["alternatives"]), criteria=list(case["criteria"]))
+            if case["what"] == "dm":
+                return dm
+            with I.quiet_fds():
+                return M.make_direct(case["method"]).evaluate(dm)
+        a, b = obj(), obj()
+        twins = {"identically constructed": b, "deep copy": _c.deepcopy(a)}
+        if hasattr(a, "copy"):
+            twins["copy()"] = a.copy()
+        out = {}
+        for k, t in twins.items():
+            out[k] = {"eq": outcome(lambda: bool(a == t)), "ne": outcome(lambda: bool(a != t)),
+                      "equals": outcome(lambda: bool(a.equals(t))), "sym": outcome(lambda: bool(t == a)),
+                      "aequals": outcome(lambda: bool(a.aequals(t)))}
+        return out
+    except Exception as e:  # noqa: BLE001
+        return {"build_error": repr(e)[:200]}
+
+
+def gen_real(rng):
+    c = gen.dm_case(rng, nmax=6, mmax=4, nmin=2, mmin=2, modes=("dyadic", "int"), positive=True, big=0.0)
+    what = rng.choice(["dm", "res", "res", "res"])
+    c["what"] = what
+    if what == "dm":
+        n, m = len(c["matrix"]), len(c["weights"])
+        c["nan"] = [[rng.randrange(n), rng.randrange(m)]] if rng.random() < 0.6 else []
+    else:
+        c["method"] = {"name": rng.choice(["electre1", "electre2", "topsis", "wsm", "multimoora", "refpoint"])}
+        c["objectives"] = [1] * len(c["weights"]) if c["method"]["name"] == "wsm" else c["objectives"]
+    return c
+
+
 def run(ctx):
     I.repo_check()
     ctx.rule = RULE
+    rcases = [gen_real(ctx.rng) for _ in range(ctx.n(120, 1500))]
+    for c, o in zip(rcases, I.pmap(run_real, rcases)):
+        ctx.count("real:" + (c["what"] if c["what"] == "dm" else c["method"]["name"]) + (":nan" if c.get("nan") else ""))
+        ctx.case_seen(c, True)
+        if "build_error" in o:
+            ctx.count("real:method_refused_the_matrix")      # e.g. TOPSIS on identical alternatives (0/0): nothing to compare
+            continue
+        for k, r in o.items():
+            bad = [x for x in r.values() if isinstance(x, str) and x.startswith("RAISED")]
+            if bad:
+                ctx.oracle_fail(c, {"oracle": f"comparison with its {k} raised {bad}"})
+                break
+            if not (r["eq"] and r["equals"] and r["sym"] and r["aequals"]) or r["ne"]:
+                ctx.oracle_fail(c, {"oracle": f"the object does not equal its {k}: {r}"})
+                break
     cases = [gen_pair(ctx.rng) for _ in range(ctx.n(1500, 30000))]
     outs = I.pmap(run_impl, cases)
     mab = ctx.model.batch([model_call(c) for c in cases])
